@@ -914,3 +914,608 @@ Example ex_any_in :
   /\ any_in gT (TQual [9%N; 7%N]) = true /\ any_in gT (TApp (TQual [9%N; 7%N]) tyA) = true
   /\ any_in gT (TSlice tyT) = true /\ any_in gT (TRef None false (TParen tyT)) = true /\ any_in gT tyA = false.
 Proof. repeat split; reflexivity. Qed.
+
+(* ================================================================================================ *)
+(** * Growth round                                                                                     *)
+
+From Coq Require Import Permutation.
+
+(* ------------------------------------------------------------------------------------------------ *)
+(** ** The header-carrying derives refine the plain ones                                               *)
+
+Lemma state_himpls_fst : forall d sg info i fty,
+  map fst (state_himpls d sg info i fty)
+  = match d with
+    | DDeref => [deref_impl false info i fty]
+    | DDerefMut => [deref_impl true info i fty]
+    | DIndex => [index_impl false i fty]
+    | DIndexMut => [index_impl true i fty]
+    | DIntoIter => map (fun rk => iter_impl rk i fty) (ref_types info)
+    end.
+Proof. intros d sg info i fty. destruct d; cbn [state_himpls map fst]; try reflexivity. rewrite map_map. reflexivity. Qed.
+
+Lemma derive_state_h_refines : forall d sg sattrs fields,
+  derive_state d sattrs fields
+  = match derive_state_h d sg sattrs fields with inl e => inl e | inr l => inr (map fst l) end.
+Proof.
+  intros d sg sattrs fields. unfold derive_state, derive_state_h.
+  destruct (select (allowed_of d) sattrs (map snd fields)) as [e|[i info]]; [reflexivity|].
+  rewrite state_himpls_fst. reflexivity.
+Qed.
+
+Lemma map_fst_flat_map : forall (X Y Z : Type) (f : X -> list (Y * Z)) (l : list X),
+  map fst (flat_map f l) = flat_map (fun x => map fst (f x)) l.
+Proof. induction l as [|a l IH]; [reflexivity|]. cbn [flat_map]. rewrite map_app, IH. reflexivity. Qed.
+
+Lemma derive_as_h_refines : forall sg m sattrs fields,
+  derive_as (generics_of sg) m sattrs fields
+  = match derive_as_h sg m sattrs fields with inl e => inl e | inr l => inr (map fst l) end.
+Proof.
+  intros sg m sattrs fields. unfold derive_as, derive_as_h.
+  destruct (as_expansions sattrs fields) as [e|es]; [reflexivity|]. f_equal.
+  rewrite map_fst_flat_map. apply flat_map_ext. intros [[i fty] c]. cbn [expansion_impls].
+  rewrite map_map. reflexivity.
+Qed.
+
+(* ------------------------------------------------------------------------------------------------ *)
+(** ** Every forwarded call is backed by a where-predicate, and nothing else is added                  *)
+
+Lemma bounds_orig_where : forall sg, bounds_of (orig_where sg) = [].
+Proof. intro sg. unfold orig_where. induction (sg_where sg) as [|a l IH]; [reflexivity|exact IH]. Qed.
+
+Lemma origs_orig_where : forall sg, origs_of (orig_where sg) = sg_where sg.
+Proof. intro sg. unfold orig_where. induction (sg_where sg) as [|a l IH]; [reflexivity|]. cbn [map origs_of]. rewrite IH. reflexivity. Qed.
+
+Lemma bounds_app : forall a b, bounds_of (a ++ b) = bounds_of a ++ bounds_of b.
+Proof. induction a as [|x a IH]; intro b; [reflexivity|]. destruct x; cbn [app bounds_of]; rewrite IH; reflexivity. Qed.
+
+Lemma origs_app : forall a b, origs_of (a ++ b) = origs_of a ++ origs_of b.
+Proof. induction a as [|x a IH]; intro b; [reflexivity|]. destruct x; cbn [app origs_of]; rewrite IH; reflexivity. Qed.
+
+Lemma calls_addr : forall m i, calls (addr m (EField i)) = [].
+Proof. intros [|] i; reflexivity. Qed.
+
+Lemma calls_reference : forall rk i, calls (reference rk (EField i)) = [].
+Proof. intros [| |] i; reflexivity. Qed.
+
+Lemma state_header_where : forall d sg info i fty im h,
+  In (im, h) (state_himpls d sg info i fty) ->
+  bounds_of (h_where h) = calls (im_body im) /\ origs_of (h_where h) = sg_where sg.
+Proof.
+  intros d sg info i fty im h H.
+  destruct d; cbn [state_himpls In] in H;
+    try (destruct H as [H|[]]; injection H as <- <-).
+  - unfold deref_impl, deref_header. destruct (fi_forward info); cbn [h_where im_body add_extra_where bounds_of origs_of calls];
+      rewrite ?bounds_orig_where, ?origs_orig_where, ?calls_addr; split; reflexivity.
+  - unfold deref_impl, deref_header. destruct (fi_forward info); cbn [h_where im_body add_extra_where bounds_of origs_of calls];
+      rewrite ?bounds_orig_where, ?origs_orig_where, ?calls_addr; split; reflexivity.
+  - cbn [index_impl index_header h_where im_body add_extra_where bounds_of origs_of calls].
+    rewrite bounds_orig_where, origs_orig_where, calls_addr. split; reflexivity.
+  - cbn [index_impl index_header h_where im_body add_extra_where bounds_of origs_of calls].
+    rewrite bounds_orig_where, origs_orig_where, calls_addr. split; reflexivity.
+  - apply in_map_iff in H. destruct H as [rk [H _]]. injection H as <- <-.
+    cbn [iter_impl iter_header h_where im_body add_extra_where bounds_of origs_of calls].
+    rewrite bounds_orig_where, origs_orig_where, calls_reference. split; reflexivity.
+Qed.
+
+Lemma as_header_where : forall sg m i fty t,
+  let '(im, h) := as_himpl sg m i fty t in
+  bounds_of (h_where h) = calls (im_body im) /\ origs_of (h_where h) = sg_where sg.
+Proof.
+  intros sg m i fty t. unfold as_himpl, as_impl. cbn [im_body].
+  destruct (as_kind_of (generics_of sg) fty t); cbn [as_header h_where as_body calls];
+    rewrite ?bounds_app, ?origs_app, ?bounds_orig_where, ?origs_orig_where, ?calls_addr; cbn [bounds_of origs_of app];
+    rewrite ?app_nil_r; split; reflexivity.
+Qed.
+
+(* the parameters: the struct's own (possibly regrouped, lifetimes first) plus exactly one documented extra *)
+Lemma filter_partition_perm : forall (X : Type) (f : X -> bool) (l : list X),
+  Permutation (filter f l ++ filter (fun x => negb (f x)) l) l.
+Proof.
+  induction l as [|a l IH]; [constructor|]. cbn [filter]. destruct (f a); cbn [negb app].
+  - constructor. exact IH.
+  - apply Permutation_sym. apply Permutation_cons_app. apply Permutation_sym. exact IH.
+Qed.
+
+Lemma print_params_perm : forall l, Permutation (print_params l) l.
+Proof. intro l. unfold print_params. apply filter_partition_perm. Qed.
+
+Lemma params_of_kind_cons : forall k k' n r w,
+  params_of_kind k {| sg_params := (k', n) :: r; sg_where := w |}
+  = (if gkind_eqb k' k then [IOrig k n] else []) ++ params_of_kind k {| sg_params := r; sg_where := w |}.
+Proof.
+  intros k k' n r w. unfold params_of_kind, ids_of. cbn [sg_params filter fst].
+  destruct (gkind_eqb k' k); reflexivity.
+Qed.
+
+Lemma kind_groups_perm : forall ps w,
+  let sg := {| sg_params := ps; sg_where := w |} in
+  Permutation (params_of_kind KLife sg ++ params_of_kind KTy sg ++ params_of_kind KConst sg) (orig_params sg).
+Proof.
+  induction ps as [|[k n] r IH]; intros w sg; [constructor|].
+  specialize (IH w). cbn zeta in IH. subst sg.
+  rewrite !params_of_kind_cons. unfold orig_params. cbn [sg_params map fst snd].
+  fold (orig_params {| sg_params := r; sg_where := w |}).
+  destruct k; cbn [gkind_eqb app].
+  - constructor. exact IH.
+  - apply Permutation_sym. apply Permutation_cons_app. apply Permutation_sym. exact IH.
+  - apply Permutation_sym. rewrite app_assoc. apply Permutation_cons_app. rewrite <- app_assoc.
+    apply Permutation_sym. exact IH.
+Qed.
+
+Lemma add_extra_type_param_perm : forall sg p,
+  Permutation (add_extra_type_param sg p) (p :: orig_params sg).
+Proof.
+  intros [ps w] p. unfold add_extra_type_param.
+  pose proof (kind_groups_perm ps w) as K. cbn zeta in K.
+  apply Permutation_sym. rewrite app_assoc. apply Permutation_cons_app. rewrite <- app_assoc.
+  apply Permutation_sym. exact K.
+Qed.
+
+Definition extra_params_state (d : dkind) (rk : refkind) : list iparam :=
+  match d with
+  | DDeref | DDerefMut => []
+  | DIndex | DIndexMut => [IIdxT]
+  | DIntoIter => match rk with RNo => [] | _ => [ILifeDM] end
+  end.
+
+Lemma state_header_params : forall d sg info i fty im h,
+  In (im, h) (state_himpls d sg info i fty) ->
+  Permutation (h_params h) (extra_params_state d (im_self im) ++ orig_params sg).
+Proof.
+  intros d sg info i fty im h H.
+  destruct d; cbn [state_himpls In] in H;
+    try (destruct H as [H|[]]; injection H as <- <-).
+  - cbn [deref_header h_params extra_params_state app]. apply print_params_perm.
+  - cbn [deref_header h_params extra_params_state app]. apply print_params_perm.
+  - cbn [index_header h_params extra_params_state app].
+    eapply Permutation_trans; [apply print_params_perm|apply add_extra_type_param_perm].
+  - cbn [index_header h_params extra_params_state app].
+    eapply Permutation_trans; [apply print_params_perm|apply add_extra_type_param_perm].
+  - apply in_map_iff in H. destruct H as [rk [H _]]. injection H as <- <-.
+    cbn [iter_header h_params extra_params_state iter_impl im_self].
+    eapply Permutation_trans; [apply print_params_perm|].
+    destruct rk; cbn [app]; [apply Permutation_refl| |]; unfold add_extra_param;
+      apply Permutation_sym; apply Permutation_cons_append.
+Qed.
+
+Definition extra_params_as (k : impl_kind) (t : target) : list iparam :=
+  match k, t with Forwarded, TgBlanket => [IAsT] | _, _ => [] end.
+
+Lemma as_header_params : forall sg m i fty t,
+  Permutation (h_params (snd (as_himpl sg m i fty t)))
+              (extra_params_as (as_kind_of (generics_of sg) fty t) t ++ orig_params sg).
+Proof.
+  intros sg m i fty t. unfold as_himpl. cbn [snd].
+  destruct (as_kind_of (generics_of sg) fty t); cbn [as_header h_params extra_params_as app];
+    try apply print_params_perm.
+  destruct t; cbn [app]; eapply Permutation_trans; try apply print_params_perm.
+  - unfold add_extra_param. apply Permutation_sym. apply Permutation_cons_append.
+  - apply Permutation_refl.
+Qed.
+
+(* ------------------------------------------------------------------------------------------------ *)
+(** ** Exactly one field (State-based derives)                                                         *)
+
+Lemma derive_state_unique_field : forall d sattrs fields ims,
+  derive_state d sattrs fields = inr ims ->
+  exists i info, select (allowed_of d) sattrs (map snd fields) = inr (i, info)
+    /\ (forall im, In im ims -> im_field im = i)
+    /\ (d <> DIntoIter -> length ims = 1)
+    /\ (d = DIntoIter -> map im_self ims = ref_types info).
+Proof.
+  intros d sattrs fields ims H. unfold derive_state in H.
+  destruct (select (allowed_of d) sattrs (map snd fields)) as [e|[i info]] eqn:S; [discriminate|].
+  injection H as <-. exists i, info. split; [reflexivity|]. repeat split.
+  - intros im Him. destruct d; cbn [In] in Him; try (destruct Him as [<-|[]]).
+    + unfold deref_impl. destruct (fi_forward info); reflexivity.
+    + unfold deref_impl. destruct (fi_forward info); reflexivity.
+    + reflexivity.
+    + reflexivity.
+    + apply in_map_iff in Him. destruct Him as [rk [<- _]]. reflexivity.
+  - intro Hd. destruct d; try reflexivity. congruence.
+  - intros ->. rewrite map_map. cbn [iter_impl im_self]. apply map_id.
+Qed.
+
+(* ------------------------------------------------------------------------------------------------ *)
+(** ** Enums and unions never get an impl                                                              *)
+
+Lemma non_struct_rejected : forall d sg it,
+  (forall s f, it <> IStruct s f) -> exists e, derive_state_item d sg it = inl e.
+Proof.
+  intros d sg it H. destruct it as [s f|s v|].
+  - exfalso. exact (H s f eq_refl).
+  - eexists. reflexivity.
+  - eexists. reflexivity.
+Qed.
+
+Lemma non_struct_rejected_as : forall sg m it,
+  (forall s f, it <> AStruct s f) -> derive_as_item sg m it = inl DSyn.
+Proof. intros sg m it H. destruct it as [s f| |]; [exfalso; exact (H s f eq_refl)|reflexivity|reflexivity]. Qed.
+
+(* ------------------------------------------------------------------------------------------------ *)
+(** ** ImplKind: a total decision on (blanket?, field type, listed type, generics)                     *)
+
+Lemma impl_kind_spec : forall g b f r,
+  (as_impl_kind g b f r = Direct <-> b = false /\ f = r)
+  /\ (as_impl_kind g b f r = Forwarded <-> b = true \/ (f <> r /\ (any_in g f = true \/ any_in g r = true)))
+  /\ (as_impl_kind g b f r = Specialized <-> b = false /\ f <> r /\ any_in g f = false /\ any_in g r = false).
+Proof.
+  intros g b f r. unfold as_impl_kind.
+  destruct b.
+  - repeat split; try discriminate; try (intros [H _]; discriminate).
+    + intros _. left. reflexivity.
+  - destruct (ty_eqb f r) eqn:E.
+    + apply ty_eqb_spec in E. subst r. repeat split; try discriminate; try reflexivity.
+      * intros [H|[H _]]; [discriminate|congruence].
+      * intros [_ [H _]]. congruence.
+    + assert (NE : f <> r) by (intro C; apply ty_eqb_spec in C; congruence).
+      destruct (any_in g f) eqn:A1; destruct (any_in g r) eqn:A2; cbn [orb];
+        repeat split; try discriminate; try reflexivity; try exact NE;
+        try (intros [_ C]; congruence);
+        try (intros _; right; split; [exact NE|]; first [left; reflexivity|right; reflexivity]);
+        try (intros [_ [_ [C1 C2]]]; congruence);
+        try (intros [C|[_ [C|C]]]; congruence).
+Qed.
+
+(* the impl generated for a listed type depends on that type alone: not on its position, not on its neighbours *)
+Lemma kind_order_independent_perm : forall sg m i fty l1 l2,
+  Permutation l1 l2 ->
+  Permutation (map (as_himpl sg m i fty) (as_targets (Some (CTypes l1)) fty))
+              (map (as_himpl sg m i fty) (as_targets (Some (CTypes l2)) fty)).
+Proof. intros sg m i fty l1 l2 P. cbn [as_targets]. apply Permutation_map. apply Permutation_map. exact P. Qed.
+
+Lemma kind_order_independent : forall sg m i fty l1 l2 t hi,
+  In hi (map (as_himpl sg m i fty) (as_targets (Some (CTypes l1)) fty)) ->
+  im_trait (fst hi) = TrAs m (TgTy t) ->
+  In t l2 ->
+  hi = as_himpl sg m i fty (TgTy t)
+  /\ In hi (map (as_himpl sg m i fty) (as_targets (Some (CTypes l2)) fty)).
+Proof.
+  intros sg m i fty l1 l2 t hi H1 Ht H2. cbn [as_targets] in *.
+  apply in_map_iff in H1. destruct H1 as [tg [<- Htg]]. apply in_map_iff in Htg. destruct Htg as [t' [<- _]].
+  cbn [as_himpl fst as_impl im_trait] in Ht. injection Ht as ->.
+  split; [reflexivity|]. apply in_map. apply in_map. exact H2.
+Qed.
+
+(* ------------------------------------------------------------------------------------------------ *)
+(** ** Several `#[as_ref(types)]` attributes are one list                                              *)
+
+Lemma merge_fattrs_types_acc : forall ls acc,
+  merge_fattrs (Some (FTypes acc)) (map FTypes ls) = inr (Some (FTypes (acc ++ concat ls))).
+Proof.
+  induction ls as [|l ls IH]; intro acc; cbn [map merge_fattrs concat].
+  - rewrite app_nil_r. reflexivity.
+  - rewrite IH, app_assoc. reflexivity.
+Qed.
+
+Lemma merge_fattrs_types : forall l ls,
+  merge_fattrs None (map FTypes (l :: ls)) = merge_fattrs None [FTypes (l ++ concat ls)].
+Proof. intros l ls. cbn [map merge_fattrs]. apply merge_fattrs_types_acc. Qed.
+
+Lemma merge_sattrs_types_acc : forall ls acc,
+  merge_sattrs (Some (CTypes acc)) (map STypes ls) = inr (Some (CTypes (acc ++ concat ls))).
+Proof.
+  induction ls as [|l ls IH]; intro acc; cbn [map merge_sattrs concat].
+  - rewrite app_nil_r. reflexivity.
+  - rewrite IH, app_assoc. reflexivity.
+Qed.
+
+Lemma merge_sattrs_types : forall l ls,
+  merge_sattrs None (map STypes (l :: ls)) = merge_sattrs None [STypes (l ++ concat ls)].
+Proof. intros l ls. cbn [map merge_sattrs]. rewrite merge_sattrs_types_acc. reflexivity. Qed.
+
+Definition field_equiv (a b : ty * list fattr_as) : Prop :=
+  fst a = fst b /\ merge_fattrs None (snd a) = merge_fattrs None (snd b).
+
+Lemma collect_fattrs_equiv : forall f f', Forall2 field_equiv f f' -> collect_fattrs f = collect_fattrs f'.
+Proof.
+  induction 1 as [|[t a] [t' a'] f f' [H1 H2] _ IH]; [reflexivity|].
+  cbn [collect_fattrs]. cbn [fst snd] in H1, H2. rewrite H2, IH. reflexivity.
+Qed.
+
+Lemma expansions_all_equiv : forall f f', Forall2 field_equiv f f' ->
+  forall k attrs, expansions_all k f attrs = expansions_all k f' attrs.
+Proof.
+  induction 1 as [|[t a] [t' a'] f f' [H1 _] _ IH]; intros k attrs; [reflexivity|].
+  cbn [fst] in H1. subst t'. cbn [expansions_all]. destruct attrs as [|[x|] ar]; [reflexivity| |]; rewrite IH; reflexivity.
+Qed.
+
+Lemma expansions_marked_equiv : forall f f', Forall2 field_equiv f f' ->
+  forall k attrs, expansions_marked k f attrs = expansions_marked k f' attrs.
+Proof.
+  induction 1 as [|[t a] [t' a'] f f' [H1 _] _ IH]; intros k attrs; [reflexivity|].
+  cbn [fst] in H1. subst t'. cbn [expansions_marked].
+  destruct attrs as [|[[| | |tys|]|] ar]; try reflexivity; rewrite IH; reflexivity.
+Qed.
+
+Lemma as_expansions_equiv : forall sattrs f f', Forall2 field_equiv f f' ->
+  as_expansions sattrs f = as_expansions sattrs f'.
+Proof.
+  intros sattrs f f' H. unfold as_expansions.
+  destruct (merge_sattrs None sattrs) as [d|[c|]]; [reflexivity| |].
+  - inversion H as [|[t a] [t' a'] r r' [H1 H2] Hr]; subst; [reflexivity|].
+    cbn [fst snd] in H1, H2. subst t'.
+    inversion Hr; subst; [|reflexivity]. rewrite H2. reflexivity.
+  - rewrite (collect_fattrs_equiv _ _ H). destruct (collect_fattrs f') as [d|attrs]; [reflexivity|].
+    rewrite (expansions_all_equiv _ _ H), (expansions_marked_equiv _ _ H). reflexivity.
+Qed.
+
+Lemma Forall2_field_equiv_refl : forall f, Forall2 field_equiv f f.
+Proof. induction f as [|a f IH]; constructor; [split; reflexivity|exact IH]. Qed.
+
+Lemma split_field_attrs : forall sg m sattrs pre post t l ls,
+  derive_as_h sg m sattrs (pre ++ (t, map FTypes (l :: ls)) :: post)
+  = derive_as_h sg m sattrs (pre ++ (t, [FTypes (l ++ concat ls)]) :: post).
+Proof.
+  intros sg m sattrs pre post t l ls. unfold derive_as_h.
+  rewrite (as_expansions_equiv sattrs (pre ++ (t, map FTypes (l :: ls)) :: post)
+                               (pre ++ (t, [FTypes (l ++ concat ls)]) :: post)); [reflexivity|].
+  apply Forall2_app; [apply Forall2_field_equiv_refl|].
+  constructor; [|apply Forall2_field_equiv_refl].
+  split; [reflexivity|]. cbn [snd]. apply merge_fattrs_types.
+Qed.
+
+Lemma split_struct_attrs : forall sg m fields l ls,
+  derive_as_h sg m (map STypes (l :: ls)) fields = derive_as_h sg m [STypes (l ++ concat ls)] fields.
+Proof.
+  intros sg m fields l ls. unfold derive_as_h, as_expansions. rewrite merge_sattrs_types. reflexivity.
+Qed.
+
+(* ------------------------------------------------------------------------------------------------ *)
+(** ** GenericsSearch                                                                                  *)
+
+Lemma any_in'_no_generics : forall t h, any_in' no_generics h t = false.
+Proof.
+  induction t as [n|s|f IHf a IHa|lt m t IHt|t IHt|t IHt n|t IHt]; intro h; cbn [any_in' no_generics g_types g_consts g_lifetimes memN existsb orb].
+  - destruct h; reflexivity.
+  - destruct s; reflexivity.
+  - rewrite IHf, IHa. reflexivity.
+  - rewrite IHt. destruct lt; reflexivity.
+  - apply IHt.
+  - rewrite IHt. destruct n; reflexivity.
+  - apply IHt.
+Qed.
+
+Lemma generics_of_no_params : forall w, generics_of {| sg_params := []; sg_where := w |} = no_generics.
+Proof. reflexivity. Qed.
+
+Definition sub_mem (a b : list N) : Prop := forall n, memN n a = true -> memN n b = true.
+
+Lemma any_in'_mono : forall g g',
+  sub_mem (g_types g) (g_types g') -> sub_mem (g_lifetimes g) (g_lifetimes g') -> sub_mem (g_consts g) (g_consts g') ->
+  forall t h, any_in' g h t = true -> any_in' g' h t = true.
+Proof.
+  intros g g' Ht Hl Hc.
+  induction t as [n|s|f IHf a IHa|lt m t IHt|t IHt|t IHt n|t IHt]; intros h H; cbn [any_in'] in *.
+  - destruct h; [discriminate|]. apply orb_true_iff in H. apply orb_true_iff. destruct H as [H|H]; [left; apply Ht|right; apply Hc]; exact H.
+  - destruct s as [|x s]; [discriminate|]. apply Ht. exact H.
+  - apply orb_true_iff in H. apply orb_true_iff. destruct H as [H|H]; [left; apply IHf|right; apply IHa]; exact H.
+  - apply orb_true_iff in H. apply orb_true_iff. destruct H as [H|H]; [left|right; apply IHt; exact H].
+    destruct lt; [apply Hl; exact H|discriminate].
+  - apply IHt. exact H.
+  - apply orb_true_iff in H. apply orb_true_iff. destruct H as [H|H]; [left; apply IHt; exact H|right].
+    destruct n; [discriminate|apply Hc; exact H].
+  - apply IHt. exact H.
+Qed.
+
+(* the shapes the visitor reacts to *)
+Lemma any_in_shapes : forall g,
+  (forall n, any_in g (TId n) = memN n (g_types g) || memN n (g_consts g))
+  /\ (forall s r, any_in g (TQual (s :: r)) = memN s (g_types g))
+  /\ (forall f a, any_in g (TApp f a) = any_in' g true f || any_in g a)
+  /\ (forall l m t, any_in g (TRef (Some l) m t) = memN l (g_lifetimes g) || any_in g t)
+  /\ (forall m t, any_in g (TRef None m t) = any_in g t)
+  /\ (forall t c, any_in g (TArray t (LenId c)) = any_in g t || memN c (g_consts g))
+  /\ (forall n, any_in' g true (TId n) = false).
+Proof. intro g. repeat split; reflexivity. Qed.
+
+Section NoGenerics.
+  Variable A : Type.
+  Variable field_impl : trait -> refkind -> ty -> arg -> bool -> A.
+  Variable norm : ty -> ty.
+
+  (* a struct without generic parameters: EVERY listed type that is the field's type for rustc yields the field itself *)
+  Lemma no_generics_identity : forall w m i fty rty,
+    ty_eqb (norm fty) (norm rty) = true ->
+    eval A field_impl norm
+         (im_body (fst (as_himpl {| sg_params := []; sg_where := w |} m i fty (TgTy rty))))
+    = Some (RArg (AAddr m i)).
+  Proof.
+    intros w m i fty rty H. unfold as_himpl. cbn [fst]. rewrite generics_of_no_params.
+    apply as_identity; [exact H|]. right. unfold any_in. rewrite !any_in'_no_generics. split; reflexivity.
+  Qed.
+
+  (* ... and never a Forwarded impl unless `forward` is written *)
+  Lemma no_generics_never_forwarded : forall fty rty, as_impl_kind no_generics false fty rty <> Forwarded.
+  Proof.
+    intros fty rty. unfold as_impl_kind. destruct (ty_eqb fty rty); [discriminate|].
+    unfold any_in. rewrite !any_in'_no_generics. discriminate.
+  Qed.
+
+  (* AsMut: a write through the identity form lands in the selected field and nowhere else *)
+  Variable V : Type.
+  Lemma asmut_writes_through : forall g i fty t (st : list V) v,
+    identity_cond norm g fty t = true -> i < length st ->
+    exists st', write A V st (eval A field_impl norm (im_body (as_impl g true i fty t))) v = Some st'
+                /\ nth_error st' i = Some v
+                /\ (forall j, j <> i -> nth_error st' j = nth_error st j)
+                /\ read A V st' (eval A field_impl norm (im_body (as_impl g false i fty t))) = Some v.
+  Proof.
+    intros g i fty t st v Hc Hi.
+    destruct (as_result A field_impl norm g true i fty t) as [_ E1].
+    destruct (as_result A field_impl norm g false i fty t) as [_ E2].
+    rewrite E1, E2, Hc. unfold write, read.
+    apply Nat.ltb_lt in Hi. rewrite Hi. apply Nat.ltb_lt in Hi.
+    exists (upd V st i v). repeat split.
+    - apply upd_nth_same. exact Hi.
+    - intros j Hj. apply upd_nth_other. congruence.
+    - apply upd_nth_same. exact Hi.
+  Qed.
+End NoGenerics.
+
+(* ------------------------------------------------------------------------------------------------ *)
+(** ** IntoIterator: which forms exist, read off the attributes (MetaInfo::into_full defaults)         *)
+
+Definition param_eqb (a b : param) : bool :=
+  match a, b with
+  | PIgnore, PIgnore | PForward, PForward | PNotForward, PNotForward | POwned, POwned | PRef, PRef
+  | PRefMut, PRefMut | PUnknown, PUnknown => true
+  | _, _ => false
+  end.
+
+Definition lists (p : param) (attrs : list attr) : bool :=
+  match attrs with [AList ps] => existsb (param_eqb p) ps | _ => false end.
+
+Definition flag (b : bool) : option bool := if b then Some true else None.
+
+Lemma apply_params_refs : forall allowed ps i i',
+  apply_params allowed i ps = Some i' ->
+  mi_owned i' = (if existsb (param_eqb POwned) ps then Some true else mi_owned i)
+  /\ mi_ref i' = (if existsb (param_eqb PRef) ps then Some true else mi_ref i)
+  /\ mi_ref_mut i' = (if existsb (param_eqb PRefMut) ps then Some true else mi_ref_mut i).
+Proof.
+  induction ps as [|p ps IH]; intros i i' H; cbn [apply_params] in H.
+  - injection H as <-. repeat split.
+  - destruct (apply_param allowed i p) as [i1|] eqn:E; [|discriminate].
+    apply IH in H. destruct H as [H1 [H2 H3]]. rewrite H1, H2, H3. cbn [existsb].
+    destruct p; cbn [apply_param] in E;
+      match type of E with (if ?c then _ else _) = _ => destruct c; [|discriminate] | _ => try discriminate end;
+      injection E as <-; cbn [param_eqb mi_owned mi_ref mi_ref_mut orb]; repeat split;
+      try reflexivity;
+      try (destruct (existsb (param_eqb POwned) ps); reflexivity);
+      try (destruct (existsb (param_eqb PRef) ps); reflexivity);
+      try (destruct (existsb (param_eqb PRefMut) ps); reflexivity).
+Qed.
+
+Lemma get_meta_info_refs : forall allowed attrs mi,
+  get_meta_info allowed attrs = inr mi ->
+  mi_owned mi = flag (lists POwned attrs) /\ mi_ref mi = flag (lists PRef attrs) /\ mi_ref_mut mi = flag (lists PRefMut attrs).
+Proof.
+  intros allowed attrs mi H. unfold get_meta_info in H.
+  destruct attrs as [|a rest]; [injection H as <-; repeat split|].
+  destruct allowed as [|k allowed]; [discriminate|].
+  destruct rest; [|discriminate].
+  destruct a.
+  - destruct (allowed_has KIgnore (k :: allowed)); [|discriminate]. injection H as <-. repeat split.
+  - destruct (apply_params (k :: allowed) mi_present ps) as [i|] eqn:E; [|discriminate].
+    injection H as <-. apply apply_params_refs in E. cbn [mi_present mi_owned mi_ref mi_ref_mut] in E.
+    unfold lists, flag. exact E.
+  - discriminate.
+Qed.
+
+Lemma collect_metas_nth : forall allowed fattrs metas i fa,
+  collect_metas allowed fattrs = inr metas -> nth_error fattrs i = Some fa ->
+  exists mi, nth_error metas i = Some mi /\ get_meta_info allowed fa = inr mi.
+Proof.
+  induction fattrs as [|a r IH]; intros metas i fa H Hn; [destruct i; discriminate|].
+  cbn [collect_metas] in H. destruct (get_meta_info allowed a) as [d|mi] eqn:G; [discriminate|].
+  destruct (collect_metas allowed r) as [d|l] eqn:C; [discriminate|]. injection H as <-.
+  destruct i as [|i]; cbn [nth_error] in *.
+  - injection Hn as <-. exists mi. split; [reflexivity|exact G].
+  - eapply IH; [reflexivity|exact Hn].
+Qed.
+
+Definition is_nil {X : Type} (l : list X) : bool := match l with [] => true | _ => false end.
+
+Lemma default_owned_spec : forall allowed fattrs metas,
+  collect_metas allowed fattrs = inr metas ->
+  default_owned metas
+  = match find (fun a => negb (is_nil a)) fattrs with
+    | None => true
+    | Some a => (negb (lists POwned a) && negb (lists PRef a)) || negb (lists PRefMut a)
+    end.
+Proof.
+  induction fattrs as [|a r IH]; intros metas H.
+  - injection H as <-. reflexivity.
+  - cbn [collect_metas] in H. destruct (get_meta_info allowed a) as [d|mi] eqn:G; [discriminate|].
+    destruct (collect_metas allowed r) as [d|l] eqn:C; [discriminate|]. injection H as <-.
+    pose proof (get_meta_info_mark _ _ _ G) as M. pose proof (get_meta_info_refs _ _ _ G) as [R1 [R2 R3]].
+    unfold default_owned, first_match. cbn [find].
+    destruct a as [|x a'].
+    + rewrite M. cbn [is_none negb is_nil]. apply (IH l eq_refl).
+    + assert (E : is_none (mi_enabled mi) = false).
+      { rewrite M. destruct a'; destruct x; try reflexivity; destruct (existsb is_ignore ps); reflexivity. }
+      rewrite E. cbn [negb is_nil]. rewrite R1, R2, R3. unfold flag.
+      destruct (lists POwned (x :: a')); destruct (lists PRef (x :: a')); destruct (lists PRefMut (x :: a')); reflexivity.
+Qed.
+
+Lemma iter_forms_of_attrs : forall sattrs fattrs i info fa,
+  select allowed_iter sattrs fattrs = inr (i, info) ->
+  nth_error fattrs i = Some fa ->
+  exists metas, collect_metas allowed_iter fattrs = inr metas
+    /\ fi_ref info = lists PRef fa || lists PRef sattrs
+    /\ fi_ref_mut info = lists PRefMut fa || lists PRefMut sattrs
+    /\ fi_owned info = lists POwned fa || lists POwned sattrs || default_owned metas.
+Proof.
+  intros sattrs fattrs i info fa S Hn.
+  destruct (select_sound _ _ _ _ _ S) as [sm [metas [H1 [H2 [_ H4]]]]].
+  exists metas. split; [exact H2|].
+  destruct (collect_metas_nth _ _ _ _ _ H2 Hn) as [mi [Hm G]].
+  unfold full_infos in H4. rewrite (map_nth_error _ _ _ Hm) in H4. injection H4 as <-.
+  destruct (get_meta_info_refs _ _ _ G) as [F1 [F2 F3]].
+  destruct (get_meta_info_refs _ _ _ H1) as [S1 [S2 S3]].
+  unfold into_full, defaults_of. cbn [fi_ref fi_ref_mut fi_owned into_full].
+  rewrite F1, F2, F3, S1, S2, S3. unfold flag.
+  destruct (lists PRef fa); destruct (lists PRef sattrs); destruct (lists PRefMut fa); destruct (lists PRefMut sattrs);
+    destruct (lists POwned fa); destruct (lists POwned sattrs); repeat split; reflexivity.
+Qed.
+
+(* ------------------------------------------------------------------------------------------------ *)
+(** ** Non-vacuity for the growth round                                                                *)
+
+Definition sgT : sgenerics := {| sg_params := [(KConst, 8%N); (KLife, 6%N); (KTy, 9%N)]; sg_where := [77%N] |}.
+
+(* `struct S<const N, 'a, T> where P (A, #[index] A)`: `impl<'a, T, __IdxT, const N> .. where A: Index<__IdxT>, P` *)
+Example ex_index_header :
+  derive_state_h DIndex sgT [] [(tyA, []); (tyA, [ABare])]
+  = inr [(index_impl false 1 tyA,
+          {| h_params := [IOrig KLife 6%N; IOrig KTy 9%N; IIdxT; IOrig KConst 8%N];
+             h_where := [WBound RNo tyA TrIndex; WOrig 77%N] |})].
+Proof. reflexivity. Qed.
+
+(* `#[into_iterator(ref)]` alone: the `&` form with the extra lifetime printed first - and an owned form *)
+Example ex_iter_header :
+  option_map (map (fun hi => (im_self (fst hi), h_params (snd hi), h_where (snd hi))))
+    (match derive_state_h DIntoIter sgT [] [(tyA, [AList [PRef]])] with inr l => Some l | inl _ => None end)
+  = Some [ (RNo, [IOrig KLife 6%N; IOrig KConst 8%N; IOrig KTy 9%N], [WBound RNo tyA TrIntoIter; WOrig 77%N]);
+           (RRef, [IOrig KLife 6%N; ILifeDM; IOrig KConst 8%N; IOrig KTy 9%N], [WBound RRef tyA TrIntoIter; WOrig 77%N]) ].
+Proof. reflexivity. Qed.
+
+(* AsRef: Forwarded pushes its predicate LAST; Direct / Specialized add nothing *)
+Example ex_as_header :
+  option_map (map (fun hi => (im_trait (fst hi), h_params (snd hi), h_where (snd hi))))
+    (match derive_as_h sgT false [STypes [tyVec tyT; tyVecAlias tyT]; STypes [tyB]] [(tyVec tyT, [])] with inr l => Some l | inl _ => None end)
+  = Some [ (TrAs false (TgTy (tyVec tyT)), [IOrig KLife 6%N; IOrig KConst 8%N; IOrig KTy 9%N], [WOrig 77%N]);
+           (TrAs false (TgTy (tyVecAlias tyT)), [IOrig KLife 6%N; IOrig KConst 8%N; IOrig KTy 9%N],
+            [WOrig 77%N; WBound RNo (tyVec tyT) (TrAs false (TgTy (tyVecAlias tyT)))]);
+           (TrAs false (TgTy tyB), [IOrig KLife 6%N; IOrig KConst 8%N; IOrig KTy 9%N],
+            [WOrig 77%N; WBound RNo (tyVec tyT) (TrAs false (TgTy tyB))]) ].
+Proof. reflexivity. Qed.
+
+Example ex_as_blanket_header :
+  option_map (map (fun hi => h_params (snd hi)))
+    (match derive_as_h sgT true [SForward] [(tyA, [])] with inr l => Some l | inl _ => None end)
+  = Some [[IOrig KLife 6%N; IOrig KConst 8%N; IOrig KTy 9%N; IAsT]].
+Proof. reflexivity. Qed.
+
+(* a list in which a generic type precedes an alias of the (non-generic) field type: kinds are per type *)
+Example ex_mixed_list :
+  derive_as_kinds {| g_types := []; g_lifetimes := []; g_consts := [8%N] |} []
+    [(tyA, [FTypes [TArray (TId 6%N) (LenId 8%N); tyAlias]; FTypes [tyB]])]
+  = inr [(0, TgTy (TArray (TId 6%N) (LenId 8%N)), Forwarded); (0, TgTy tyAlias, Specialized); (0, TgTy tyB, Specialized)].
+Proof. reflexivity. Qed.
+
+(* enums / unions *)
+Example ex_enum : derive_state_item DDeref sgT (IEnum [] [([], [[ABare]]); ([], [])]) = inl (DStruct DOneField).
+Proof. reflexivity. Qed.
+Example ex_enum_bad_attr : derive_state_item DIndex sgT (IEnum [] [([], [[]]); ([], [[AList [PForward]]])]) = inl (DStruct DSyn).
+Proof. reflexivity. Qed.
+Example ex_union : derive_state_item DDeref sgT IUnion = inl DUnion.
+Proof. reflexivity. Qed.
+
+(* IntoIterator forms: the `owned` default is true for `#[into_iterator(ref)]` alone, false for `(ref, ref_mut)` *)
+Example ex_default_owned :
+  (exists m, collect_metas allowed_iter [[AList [PRef]]] = inr m /\ default_owned m = true)
+  /\ (exists m, collect_metas allowed_iter [[AList [PRef; PRefMut]]] = inr m /\ default_owned m = false).
+Proof. split; eexists; split; reflexivity. Qed.
